@@ -46,21 +46,34 @@ import ModbusVerif.Model.Client
     (values of Go type `byte` are in range, then this is the identity: `byteOfInt_toNat`).
 
   ## Interface
-  world        `isSliceCallee`, `sliceWorld`, `sliceWorld_slice` / `sliceWorld_other` (+ one simp lemma per
-               callee: `sliceWorld_append` …)
+  world        `isSliceCallee`, `sliceWorld`, `sliceWorld_slice` / `sliceWorld_other` (general), one simp lemma per
+               slice callee (`sliceWorld_append`, `_appendS`, `_bytes`, `_u16`, `_u32`, `_f32`, `_u64`, `_f64`,
+               `_encodeBools`, `_u16s`, `_crcValue`) and pass-through lemmas for `crc.init`, `crc.add`,
+               `mc.executeRequest`, `mc.writeRegisters`, `mc.encoding` (other callees:
+               `sliceWorld_other ext cs _ args (by decide)`)
+  values       `endianOfInt`, `wordOfInt`, `intOfEndian`, `intOfWord`, `intsOfVals`, `intsOfBytes`, `intsOfBools`,
+               `bytesOfInts`, `boolsOfInts`, `u16sOfInts`; `byteOfInt_toNat`, `ofInt16_toNat`, `ofInt32_toNat`,
+               `ofInt64_toNat`, `ofInt16_of_mod`, `ofInt8_of_mod`, `bytesOfInts_intsOfBytes`, `boolsOfInts_intsOfBools`
+  seeding      `seedInput`, `sliceAt_seed`, `bytesAt_seed`, `…_seed2_0/1`, `sliceAt_snoc_input`, `bytesAt_snoc_input`
+  interpreter  `SliceSt`, `handleOf`, `sliceNew`, `crcNext`, `sliceStep`, `sliceState`, `sliceAt`, `bytesAt`, `crcAt`
+               (the last four are IRREDUCIBLE after this file's lemmas: use the lemmas; `decide +kernel` works)
+  log growth   `sliceState_snoc`, `sliceAt_snoc_lt`, `sliceAt_snoc_self`, `sliceAt_lt_of_some`, `sliceAt_mono`,
+               `sliceAt_mono1`, `bytesAt_mono`, `bytesAt_mono1`, `bytesAt_lt_of_some`, `crcAt_snoc_other`,
+               `crcAt_mono1`, `sliceAt_snoc_none`, `bytesAt_eq_of`
+  per callee   (handle `k` with side condition `hk : k = cs.length`) `bytesAt_snoc_bytes`, `_append` (general) /
+               `_append1` / `_append2` / `_append3`, `_appendS`, `_u16`, `_u32`, `_f32`, `_u64`, `_f64`,
+               `_encodeBools`, `_u16s`, `_crcValue`; `crcAt_snoc_init`, `crcAt_snoc_add`
   probes       `probeInts`, `probeInts_lt`, `probeInts_ge` (answer of a `withProbe` pseudo-call on an integer list)
-  seeding      `seedInput`, `intsOfBytes`, `intsOfBools`, `sliceAt_seed`, `bytesAt_seed`
-  interpreter  `SliceSt`, `sliceNew`, `crcNext`, `sliceStep`, `sliceState`, `sliceAt`, `bytesAt`, `crcAt`
-  log growth   `sliceState_snoc`, `sliceAt_snoc_lt`, `sliceAt_snoc_self`, `sliceAt_lt_of_some`,
-               `sliceAt_mono`, `sliceAt_mono1`, `bytesAt_mono`, `bytesAt_mono1`, `crcAt_snoc_other`
-  per callee   `bytesAt_snoc_input`, `_bytes`, `_append` (general) / `_append1` / `_append2` / `_append3`,
-               `_appendS`, `_u16`, `_u32`, `_f32`, `_u64`, `_f64`, `_encodeBools`, `_u16s`, `_crcValue`;
-               `crcAt_snoc_init`, `crcAt_snoc_add`
-  values       `byteOfInt_toNat`, `ofInt16_toNat`, …, `bytesOfInts_intsOfBytes`, `endianOfInt_*`
   running      `execFromW_ge`, `execFromW_seq_of_fell`, `execFromW_seq_of_end`, `execFromW_loop_of_fell`,
                `execFromW_loop_of_broke` (the `W` copies of the composition lemmas of GoEvalLifeLemmas)
-  tactic       `slice_solve`: proves `bytesAt LOG h = some ?b` / `crcAt LOG = some ?s` for a log of the form
-               `cs0 ++ [c1] ++ … ++ [cn]` by walking down the log (facts about `cs0` from the context)
+  tactics      `go_slices [gsp_term, hyps…]`: `go_evalW` + the world lemmas + handles normalised to `cs0.length + n`
+               (`length_add_add`); `slice_solve`: proves `bytesAt LOG h = some ?b` / `sliceAt …` / `crcAt LOG = some ?s`
+               for `LOG = cs0 ++ [c1] ++ … ++ [cn]` by walking down the log (use after `apply bytesAt_eq_of`, then
+               `case h1 => slice_solve`, `case h2 =>` the equation of byte strings); `len_solve` for the `hk`s.
+  Typical use: Props/C01SrcBytes.lean (`C01B_mbap_frame`: straight-line; `multi_loop`: a loop by induction with
+  the invariant "`payload` is a handle `h` with `bytesAt cs h = some acc`").
+  Imports: GoEvalTransportLemmas (world evaluator), Model/Client (→ Rtu, Mbap, Crc, Encoding). It does NOT import
+  GoEvalLifeLemmas / GoEvalCodecLemmas (which cannot be imported together); `withProbe` lives in GoEvalLifeLemmas.
 -/
 set_option linter.unusedSimpArgs false
 set_option linter.unusedVariables false
